@@ -49,6 +49,16 @@ structure TriggerDef where
   fname : String
   deriving Inhabited
 
+structure FkDef where
+  name : String
+  cols : List String
+  /-- referenced table (`schema.table` once instantiated) and columns -/
+  refTable : String
+  refCols : List String
+  /-- ON DELETE CASCADE (otherwise NO ACTION) -/
+  cascade : Bool := false
+  deriving Inhabited
+
 structure Ver where
   rid : Nat
   xmin : Nat
@@ -68,6 +78,7 @@ structure Table where
   uniques : List UniqueIdx := []
   checks : List CheckDef := []
   triggers : List TriggerDef := []
+  fks : List FkDef := []
   /-- newest first (so that snapshots share structure); scans reverse it -/
   rows : List Ver := []
   nextRid : Nat := 1
